@@ -2901,8 +2901,10 @@ impl WasmGenerator {
                         memory_index: 0,
                     };
                     func.instruction(&W::I32Const(temp_addr as i32));
-                    self.emit_value_load(value, func);
-                    match Self::type_to_valtype(&ty.to_type()) {
+                    // (typed load: a result that is a bare element access, `t.0`, is an address)
+                    let vtype = Self::type_to_valtype(&ty.to_type());
+                    self.emit_value_load_typed(value, vtype, func);
+                    match vtype {
                         ValType::F64 => func.instruction(&W::F64Store(memarg)),
                         _ => func.instruction(&W::I64Store(memarg)),
                     };
@@ -2927,7 +2929,11 @@ impl WasmGenerator {
                 }
 
                 // Push the return value onto the stack (ReturnFeed acts as Return)
-                self.emit_value_load(value, func);
+                if size <= 1 {
+                    self.emit_value_load_typed(value, Self::type_to_valtype(&ty.to_type()), func);
+                } else {
+                    self.emit_value_load(value, func);
+                }
             }
 
             I::Delay(len, input, time) => {
